@@ -152,8 +152,9 @@ fn is_allowed_char_after_keyword(ch: char) -> bool {
     ch != '.' && ch != '$' && !ch.is_ascii_alphanumeric()
 }
 
-const MAX_LENGTH: usize = 40;
-
+// The maximum length of identifiers is not checked here:
+// the same text can be part of a comment or a string literal.
+// It is checked when the token is parsed as a name.
 fn identifier() -> impl Parser<StringView, Output = Token, Error = ParserError> {
     read_p()
         .filter(char::is_ascii_alphabetic)
@@ -163,13 +164,6 @@ fn identifier() -> impl Parser<StringView, Output = Token, Error = ParserError> 
                 .zero_or_more(),
             StringCombiner,
         )
-        .and_then(|value| {
-            if value.len() > MAX_LENGTH {
-                Err(ParserError::IdentifierTooLong)
-            } else {
-                Ok(value)
-            }
-        })
         .to_token(TokenType::Identifier)
 }
 
